@@ -1644,6 +1644,9 @@ def default_builtins():
 
     def b_max(*a, key=None, default=None):
         vals = a[0] if len(a) == 1 else a
+        h = getattr(vals, "_max", None)
+        if h is not None:
+            return h(key)
         if key is not None:
             vals = list(vals)
             if not vals:
@@ -1770,7 +1773,19 @@ def default_builtins():
             return SymZip(*xs)
         return zip(*xs)
 
-    return {"enumerate": b_enumerate, "zip": b_zip, "len": b_len, "abs": b_abs, "max": b_max, "min": b_min, "range": b_range, "list": b_list, "set": b_set,
+    def b_isinstance(x, t):
+        tr = {b_list: list, b_set: set, b_int: int, b_float: float}
+        if isinstance(t, tuple):
+            t = tuple(tr.get(e, e) for e in t)
+        else:
+            t = tr.get(t, t)
+        if isinstance(x, SR) and (t is int or (isinstance(t, tuple) and int in t)):
+            return x.is_int or (isinstance(t, tuple) and float in t)
+        if isinstance(x, SR) and (t is float or (isinstance(t, tuple) and float in t)):
+            return not x.is_int
+        return isinstance(x, t)
+
+    return {"isinstance": b_isinstance, "enumerate": b_enumerate, "zip": b_zip, "len": b_len, "abs": b_abs, "max": b_max, "min": b_min, "range": b_range, "list": b_list, "set": b_set,
             "sorted": b_sorted, "int": b_int, "float": b_float, "all": b_all, "any": b_any, "sum": b_sum,
             "filter": b_filter, "round": b_round, "True": True, "False": False, "None": None,
             "setattr": None, "NotImplemented": NotImplemented}
@@ -1791,8 +1806,17 @@ def verify_function(module: ModuleCtx, qualname: str, make_args, post, contracts
         it = Interp(st, contracts=contracts, loops=loops, builtins_=builtins_, call_hook=call_hook)
         if "setattr" in it.builtins and it.builtins["setattr"] is None:
             it.builtins["setattr"] = lambda o, a, v: it.setattr(o, a, v)
-        args, kwargs, ctx = make_args(st, it)
+        try:
+            args, kwargs, ctx = make_args(st, it)
+        except (PathKilled, Unsupported):
+            raise
+        except Exception as e:
+            import traceback as _tb
+
+            raise Unsupported("harness error while building inputs: %s" % _tb.format_exc()[-800:])
         ctx["interp"] = it
+        if "closure" in ctx:
+            f.closure = ctx["closure"]
         it.func_stack.append(("__top__" + key, [0]))
         try:
             try:
